@@ -859,6 +859,12 @@ static void iauth_read(evutil_socket_t fd, short events, void *iauth_in_v)
         if (argc < ARRAY_LENGTH(argv))
             argv[argc] = NULL;
 
+        /* A line with nothing after the id has no command to dispatch. */
+        if (argc == 0) {
+            free(line);
+            continue;
+        }
+
         /* If we should know the id, but don't, bail. */
         if (id == -1 || argv[0][0] == 'C')
             req = NULL;
